@@ -154,6 +154,17 @@ def check(case, ctx):
         if d:
             out.append(Violation(d[0], sig_of(d[0], d[1], text), dict(api=name, diff=d[1], text=text, got=got, want=truth)))
             break
+    if not out and ctx.cases % 25 == 0:
+        from ..monitors.fingerprint import fp, tamper
+        st, l1 = sp.parse_default(text)
+        if st == "ok":
+            ctx.mon("reparse_after_tamper")
+            snap = fp(l1)
+            tamper(l1)
+            st, l2 = sp.parse_default(text)
+            ctx.ran(2)
+            if st != "ok" or fp(l2) != snap:
+                out.append(Violation("state-between-calls", "C02:second-parse-differs-after-first-result-was-modified", dict(text=text)))
     for it in items:
         ctx.state(it["kind"] + (":" + "+".join(sp.features(it["raw"])) if it["kind"] in ("entry", "string") else ""))
     if nontrivial(items):
